@@ -261,11 +261,9 @@ class Arrhenius(Expr):
 
     def __call__(self, variables, backend=math, **kwargs):
         A, Ea_over_R = self.all_args(variables, backend=backend, **kwargs)
-        try:
-            Ea_over_R = Ea_over_R.simplified
-        except AttributeError:
-            pass
-        return A * backend.exp(-Ea_over_R / variables["temperature"])
+        exponent = -Ea_over_R / variables["temperature"]
+        exponent = getattr(exponent, "simplified", exponent)  # e.g. K/mK -> dimensionless
+        return A * backend.exp(exponent)
 
 
 class Eyring(Expr):
@@ -294,7 +292,9 @@ class Eyring(Expr):
     def __call__(self, variables, backend=math, **kwargs):
         c0, c1, conc0 = self.all_args(variables, backend=backend, **kwargs)
         T = variables["temperature"]
-        return c0 * T * backend.exp(-c1 / T) * conc0 ** (1 - kwargs["reaction"].order())
+        exponent = -c1 / T
+        exponent = getattr(exponent, "simplified", exponent)  # e.g. kJ/J -> dimensionless
+        return c0 * T * backend.exp(exponent) * conc0 ** (1 - kwargs["reaction"].order())
 
 
 class EyringHS(Expr):
